@@ -131,6 +131,10 @@ func checkC16(ctx *Ctx) {
 	leaf := Dag{Max: 2, Nodes: []DNode{{Name: "s0", Kind: "src", Items: 3}, {Name: "P0", Kind: "proc", Ins: []string{"s0"}}, {Name: "P1", Kind: "proc", Ins: []string{"P0"}, NoOut: true}}}
 	cases = append(cases, c16Case{Dag: leaf, RunTo: []string{"P1"}, Kind: "name"})
 	cases = append(cases, c16Case{Dag: leaf, Unplug: "P1.in0"})
+	// a parameter producer with an upstream of its own: RunTo must reach through the parameter connection
+	pch := Dag{Max: 2, Nodes: []DNode{{Name: "s0", Kind: "src", Items: 2}, {Name: "ps0", Kind: "psrc", PVals: []string{"v0", "v1"}}, {Name: "pc0", Kind: "pcomb", PIn: "ps0"},
+		{Name: "P0", Kind: "proc", Ins: []string{"s0"}, PIn: "pc0"}, {Name: "P1", Kind: "proc", Ins: []string{"P0"}}, {Name: "P2", Kind: "proc", Ins: []string{"s0"}}}}
+	cases = append(cases, c16Case{Dag: pch}, c16Case{Dag: pch, RunTo: []string{"P0"}, Kind: "name"}, c16Case{Dag: pch, RunTo: []string{"P1"}, Kind: "procs"}, c16Case{Dag: pch, RunTo: []string{"P2"}, Kind: "name"})
 	for i := 0; i < n; i++ {
 		g := genDag(r, true, 4)
 		cases = append(cases, c16Case{Dag: g})
@@ -195,7 +199,7 @@ func modelPlan(ctx *Ctx, c c16Case, rr *RunRes) {
 	for i, n := range c.Dag.Nodes {
 		idx[n.Name] = i
 	}
-	edges, inPorts, hasOut, selfFed := []string{}, []string{}, []string{}, []string{}
+	edges, inPorts, hasOut, selfFed, paramPorts := []string{}, []string{}, []string{}, []string{}, []string{}
 	for i, n := range c.Dag.Nodes {
 		np := len(n.Ins)
 		for k, u := range n.Ins {
@@ -204,6 +208,7 @@ func modelPlan(ctx *Ctx, c c16Case, rr *RunRes) {
 			}
 		}
 		if n.PIn != "" {
+			paramPorts = append(paramPorts, fmt.Sprintf("%d:%d", i, np))
 			if c.Unplug != n.Name+".p" {
 				if n.PIn == "@" {
 					selfFed = append(selfFed, fmt.Sprintf("%d:%d", i, np))
@@ -228,7 +233,7 @@ func modelPlan(ctx *Ctx, c c16Case, rr *RunRes) {
 		}
 		targets = strings.Join(ts, ",")
 	}
-	resp := ctx.Drv.Ask("plan", fmt.Sprint(len(c.Dag.Nodes)), strings.Join(edges, ","), strings.Join(inPorts, ","), strings.Join(hasOut, ","), strings.Join(selfFed, ","), targets)
+	resp := ctx.Drv.Ask("plan", fmt.Sprint(len(c.Dag.Nodes)), strings.Join(edges, ","), strings.Join(inPorts, ","), strings.Join(hasOut, ","), strings.Join(selfFed, ","), strings.Join(paramPorts, ","), targets)
 	ctx.Res.Count("plan=" + strings.Fields(resp)[0])
 	started := []int{}
 	driver := "sink"
